@@ -703,7 +703,12 @@ def search(ctx, np, util, config, sf_actual, icases=()):
                         wf.writeframes(a.tobytes("C"))
                     force = "wav"
                 elif kind == "sph":
-                    soundfile.write(path, a, 16000, format="NIST", subtype="PCM_16" if a.dtype.itemsize == 2 else "PCM_32")
+                    # either byte order on disk (the classic NIST corpora are big-endian): the array read back is the stored
+                    # one, in the host's own dtype
+                    endian = r.choice(["LITTLE", "BIG"])
+                    ctx.count("roundtrip:sph:" + endian)
+                    detail["byte_order_on_disk"] = endian
+                    soundfile.write(path, a, 16000, format="NIST", subtype="PCM_16" if a.dtype.itemsize == 2 else "PCM_32", endian=endian)
                     force = "sph"
                 else:
                     soundfile.write(path, a, 16000, format=kind.upper(), subtype="PCM_16")
@@ -885,6 +890,8 @@ def search(ctx, np, util, config, sf_actual, icases=()):
     hdr = ("NIST_1A\n   1024\nchannel_count -i 2\nsample_count -i 20\nsample_rate -i 8000\nsample_n_bytes -i 2\n"
            "sample_byte_format -s2 01\nsample_coding -s3 pcm\nend_head\n").encode()
     pay["sph"] = (hdr + b" " * (1024 - len(hdr)) + a16.astype("<i2").tobytes("C"), a16)
+    hdrbe = hdr.replace(b"sample_byte_format -s2 01", b"sample_byte_format -s2 10")
+    pay["sph-be"] = (hdrbe + b" " * (1024 - len(hdrbe)) + a16.astype(">i2").tobytes("C"), a16)
     a8 = np.array([0, 1, 127, 128, 200, 255, 64, 129], dtype=np.uint8)
     hdr8 = ("NIST_1A\n   1024\nchannel_count -i 1\nsample_count -i 8\nsample_rate -i 8000\nsample_n_bytes -i 1\n"
             "sample_byte_format -s1 1\nsample_coding -s3 pcm\nend_head\n").encode()
@@ -892,7 +899,7 @@ def search(ctx, np, util, config, sf_actual, icases=()):
     tb = io.BytesIO()
     torch.save(torch.from_numpy(a16.copy()), tb)
     pay["pt"] = (tb.getvalue(), a16)
-    for cont, fa_ok in (("npy", "npy"), ("wav", "wav"), ("sph", "sph"), ("sph8", "sph"), ("pt", "pt")):
+    for cont, fa_ok in (("npy", "npy"), ("wav", "wav"), ("sph", "sph"), ("sph-be", "sph"), ("sph8", "sph"), ("pt", "pt")):
         payload, want = pay[cont]
         for fa in (None, fa_ok):
             for sname, st in streams(payload):
